@@ -76,11 +76,25 @@ func runSeqEnum(seed uint64, index int64, o hx.Opts) *hx.Result {
 				in := alpha[x%int64(len(alpha))]
 				x /= int64(len(alpha))
 				var out Out
+				var before [2]bool
+				if in.Kind == OpClean {
+					for n := 0; n < 2; n++ {
+						_, _, err := ns.QueryName(names[n])
+						before[n] = err == nil
+					}
+				}
 				if in.Kind == OpJump {
 					rt.JumpClock(in.TTL)
 					out = Out{OK: true}
 				} else {
 					out = apply(ns, cl, in, false)
+				}
+				if in.Kind == OpClean {
+					for n := 0; n < 2; n++ {
+						if _, _, err := ns.QueryName(names[n]); err != nil && before[n] {
+							rt.Probe(PSweepRemoved)
+						}
+					}
 				}
 				desc = append(desc, in.String()+" -> "+out.String())
 				var next []*State
